@@ -81,7 +81,10 @@ def c12(work, tier, seed):
                                 continue
                             if param == "near-case" and not any("HL" in h for h in hosts):
                                 continue
-                            user = "7" if any("PH" in h for h in hosts) else ("bob@corp.example" if split else "user1")
+                            # with the user placeholder in a host entry the login name also decides the host: the name with
+                            # a domain part (domain splitting on) has to give a file that the tunnel checks accept as well
+                            ph = any("PH" in h for h in hosts)
+                            user = ("7@corp.example" if split and len(scripts) % 2 == 0 else "7") if ph else ("bob@corp.example" if split else "user1")
                             peer, xff = addrs[len(scripts) % len(addrs)]
                             c2 = cfg
                             if len(scripts) % 5 == 3:
